@@ -238,7 +238,9 @@ static char *quote_string(char *str) {
 
 static Token *new_str_token(char *str, Token *tmpl) {
   char *buf = quote_string(str);
-  return tokenize(new_file(tmpl->file->name, tmpl->file->file_no, buf));
+  Token *tok = tokenize(new_file(tmpl->file->name, tmpl->file->file_no, buf));
+  tok->line_no = tmpl->line_no;
+  return tok;
 }
 
 // Copy all tokens until the next newline, terminate them with
@@ -258,7 +260,9 @@ static Token *copy_line(Token **rest, Token *tok) {
 
 static Token *new_num_token(int val, Token *tmpl) {
   char *buf = format("%d\n", val);
-  return tokenize(new_file(tmpl->file->name, tmpl->file->file_no, buf));
+  Token *tok = tokenize(new_file(tmpl->file->name, tmpl->file->file_no, buf));
+  tok->line_no = tmpl->line_no;
+  return tok;
 }
 
 static Token *read_const_expr(Token **rest, Token *tok) {
@@ -530,6 +534,7 @@ static Token *paste(Token *lhs, Token *rhs) {
     error_tok(lhs, "pasting forms '%s', an invalid token", buf);
   tok->at_bol = lhs->at_bol;
   tok->has_space = lhs->has_space;
+  tok->line_no = lhs->line_no;
   return tok;
 }
 
